@@ -246,6 +246,16 @@ def _extra_queries():
                 keep_name, 1, 0, meta=("dx", "f8"), transform_divisions=td, enforce_metadata=em)))
             qs.append((f"map_partitions_em{int(em)}_{int(td)}", lambda dx_, td=td, em=em: dx_.from_pandas(plain, npartitions=3).x.map_partitions(
                 keep_name, meta=("dx", "f8"), enforce_metadata=em, transform_divisions=td)))
+    # a column-projectable from_map source asked for an empty / a foreign column selection (D84)
+    A = pd.DataFrame({"a": [1, 2, 3, 4], "b": [5, 6, 7, 8]})
+    B = pd.DataFrame({"c": [1, 2, 3, 4], "d": [5, 6, 7, 8]}, index=[4, 5, 6, 7])
+
+    def fm(dx_, p):
+        parts = [p.iloc[:2], p.iloc[2:]]
+        return dx_.from_map(lambda i, columns=None: (parts[i][columns] if columns is not None else parts[i]), [0, 1], meta=p.iloc[:0])
+
+    qs.append(("from_map_empty_selection", lambda dx_: fm(dx_, A)[[]]))
+    qs.append(("from_map_concat_foreign_column", lambda dx_: dx_.concat([fm(dx_, A), fm(dx_, B)])[["d"]]))
     qs.append(("set_index_drop_false_head", lambda dx_: dx_.from_pandas(plain, npartitions=3).set_index("x", drop=False).head(3, compute=False)))
     return qs
 
